@@ -83,6 +83,7 @@ func ParseFlags() *Flags {
 	F.Tier, F.Out, F.Seed, F.Replay, F.Scratch, F.Part = *tier, *out, *seed, *replay, *scratch, *part
 	// "<part>_dense" is the same harness part built with statement-level scheduling points (VERIF_DENSE)
 	F.Part = strings.TrimSuffix(strings.TrimSuffix(F.Part, "_dense"), "_densefull")
+	F.Part = strings.TrimSuffix(F.Part, "_page4k")
 	sp := strings.Split(*shard, "/")
 	if len(sp) == 2 {
 		F.Shard, _ = strconv.Atoi(sp[0])
